@@ -75,3 +75,456 @@ def distance_is_antiderivative():
     P, ice, n0, k, a, z, beta, nz = _setup_closed_form()
     F = lambda zz: P._distance_integral(zz, beta, ice, deep=False)
     prove("d/dz = tan(theta) = beta/sqrt(n^2-beta^2)", eq(deriv(F, z), beta / sqrt(nz ** 2 - beta ** 2)))
+
+
+# ---------------------------------------------------------------------------
+# deep (uniform-index) branch and vertical-ray branch
+# ---------------------------------------------------------------------------
+
+@harness(clause="closed-forms-deep")
+def deep_branch_is_frozen_angle_integrand():
+    """below z_uniform the ray angle is frozen at its n0 value (documented approximation):
+    ds/dz = n0/sqrt(n0^2-beta^2), dt/dz = n(z) ds/dz / c, dr/dz = beta/sqrt(n0^2-beta^2)"""
+    P, ice, n0, k, a, z, beta, nz = _setup_closed_form()
+    alpha = n0 * n0 - beta * beta
+    lemma("alpha>0", alpha > 0)
+    prove("pathlen", eq(deriv(lambda zz: P._pathlen_integral(zz, beta, ice, deep=True), z), n0 / sqrt(alpha)))
+    prove("tof", eq(deriv(lambda zz: P._tof_integral(zz, beta, ice, deep=True), z), n0 * nz / (C * sqrt(alpha))))
+    prove("distance", eq(deriv(lambda zz: P._distance_integral(zz, beta, ice, deep=True), z), beta / sqrt(alpha)))
+
+
+@harness(clause="closed-forms-vertical")
+def vertical_ray_branch():
+    """|beta| within beta_tolerance: ds = dz, dt = n dz / c, dr = 0"""
+    ice, n0, k, a, lo = exp_ice()
+    z = real("z")
+    beta = real("beta")
+    assume(And(beta >= -0.005, beta <= 0.005, z <= 0))
+    nz = index(n0, k, a, z)
+    assume(nz > 0.005)
+    P = resolve(SP)
+    prove("pathlen", eq(deriv(lambda zz: P._pathlen_integral(zz, beta, ice, deep=False), z), 1))
+    prove("tof", eq(deriv(lambda zz: P._tof_integral(zz, beta, ice, deep=False), z), nz / C))
+    prove("distance", eq(deriv(lambda zz: P._distance_integral(zz, beta, ice, deep=False), z), 0))
+
+
+# ---------------------------------------------------------------------------
+# piecing the two regimes together at z_uniform
+# ---------------------------------------------------------------------------
+
+I_deep = ufunc("I_deep")
+I_shallow = ufunc("I_shallow")
+
+
+def two_regime_integrand(z, beta, ice, deep=False):
+    return ite(deep, I_deep(z), I_shallow(z))
+
+
+@harness(clause="piecing")
+def uniform_correction_is_sum_of_regime_integrals():
+    """with an arbitrary pair of antiderivatives (deep, shallow) the result is the sum of the
+    per-regime definite integrals from z0 to z1"""
+    P = resolve(SP)
+    z0 = real("z0")
+    z1 = real("z1")
+    zu = real("z_uniform")
+    beta = real("beta")
+    ice, n0, k, a, lo = exp_ice()
+    r = P._z_int_uniform_correction(z0, z1, zu, beta, ice, two_regime_integrand)
+    same_deep = And(z0 < zu, z1 < zu)
+    same_shallow = And(z0 >= zu, z1 >= zu)
+    prove("both-deep", implies(same_deep, eq(r, I_deep(z1) - I_deep(z0))))
+    prove("both-shallow", implies(same_shallow, eq(r, I_shallow(z1) - I_shallow(z0))))
+    prove("upward-crossing", implies(And(z0 < zu, zu <= z1),
+                                     eq(r, (I_deep(zu) - I_deep(z0)) + (I_shallow(z1) - I_shallow(zu)))))
+    prove("downward-crossing", implies(And(z1 < zu, zu <= z0),
+                                       eq(r, (I_shallow(zu) - I_shallow(z0)) + (I_deep(z1) - I_deep(zu)))))
+    # reciprocity of the definite integral (used by C02): swapping the limits flips the sign
+    r2 = P._z_int_uniform_correction(z1, z0, zu, beta, ice, two_regime_integrand)
+    prove("antisymmetric-in-limits", eq(r2, -r))
+
+
+# ---------------------------------------------------------------------------
+# composition into path quantities: direct = one leg, indirect = two legs meeting at z_turn
+# ---------------------------------------------------------------------------
+
+def _path(direct):
+    ice, n0, k, a, lo = exp_ice()
+    p0 = vec("from")
+    p1 = vec("to")
+    theta0 = real("theta0")
+    assume(And(lo <= p0[2], p0[2] <= 0, lo <= p1[2], p1[2] <= 0, theta0 >= 0, theta0 <= pi))
+    tracer = new("pyrex.ray_tracing.SpecializedRayTracer", p0, p1, ice_model=ice, dz=1)
+    path = new(SP, tracer, theta0, direct)
+    return path, ice, n0, k, a, lo, p0, p1, theta0
+
+
+F_any = ufunc("F_any")
+F_any_deep = ufunc("F_any_deep")
+
+
+def any_integrand(z, beta, ice, deep=False):
+    return ite(deep, F_any_deep(z), F_any(z))
+
+
+@harness(clause="composition")
+def direct_path_is_one_leg():
+    path, ice, n0, k, a, lo, p0, p1, theta0 = _path(True)
+    P = resolve(SP)
+    prove("z0-is-source-depth", eq(path.z0, p0[2]))
+    prove("z1-is-receiver-depth", eq(path.z1, p1[2]))
+    expect = P._z_int_uniform_correction(p0[2], p1[2], path.z_uniform, path.beta, ice, any_integrand)
+    prove("single-leg-from-source-to-receiver", eq(path.z_integral(any_integrand), expect))
+    prove("beta-is-n(z0)sin(theta0)", eq(path.beta, index(n0, k, a, p0[2]) * sin(theta0)))
+
+
+@harness(clause="composition")
+def indirect_path_is_two_legs_meeting_at_turn():
+    path, ice, n0, k, a, lo, p0, p1, theta0 = _path(False)
+    P = resolve(SP)
+    zt = path.z_turn
+    leg1 = P._z_int_uniform_correction(p0[2], zt, path.z_uniform, path.beta, ice, any_integrand)
+    leg2 = P._z_int_uniform_correction(p1[2], zt, path.z_uniform, path.beta, ice, any_integrand)
+    prove("two-legs", eq(path.z_integral(any_integrand), leg1 + leg2))
+    beta = path.beta
+    n_surface = index(n0, k, a, 0)
+    n_bottom = index(n0, k, a, lo)
+    # turning point: either a true turn-over below the surface (ray horizontal: n(z_turn) = beta)
+    # or the surface itself (reflection)
+    prove("turns-over-below-surface-or-reflects",
+          implies(beta <= n_bottom, Or(And(zt < 0, zt >= lo, eq(index(n0, k, a, zt), beta)), eq(zt, 0))))
+    prove("reflects-iff-beta-below-surface-index", implies(beta < n_surface, eq(zt, 0)))
+    prove("turn-over-iff-beta-above-surface-index",
+          implies(And(beta > n_surface, beta <= n_bottom), And(zt < 0, eq(index(n0, k, a, zt), beta))))
+
+
+@harness(clause="composition")
+def path_length_and_tof_are_the_integrals():
+    """path_length = |integral of ds|, tof = |integral of n ds / c| (z_integral under its own
+    contract: direct_path_is_one_leg / indirect_path_is_two_legs_meeting_at_turn)"""
+    for direct in (True, False):
+        path, ice, n0, k, a, lo, p0, p1, theta0 = _path(direct)
+        seen = []
+
+        def z_integral_stub(self, integrand, integrand_kwargs={}, numerical=False):
+            seen.append(integrand.__name__)
+            return real("integral_of_" + integrand.__name__)
+        use_stub("pyrex.ray_tracing.SpecializedRayTracePath.z_integral", z_integral_stub)
+        pl = path.path_length
+        tf = path.tof
+        if not NATIVE:
+            prove("integrands direct=%s" % direct, seen == ["_pathlen_integral", "_tof_integral"])
+            prove("path_length=|integral of ds| direct=%s" % direct, eq(pl, absval(real("integral_of__pathlen_integral"))))
+            prove("tof=|integral of n ds/c| direct=%s" % direct, eq(tf, absval(real("integral_of__tof_integral"))))
+        else:
+            P = resolve(SP)
+            prove("path_length=|integral of ds| direct=%s" % direct, eq(pl, absval(path.z_integral(P._pathlen_integral))))
+            prove("tof=|integral of n ds/c| direct=%s" % direct, eq(tf, absval(path.z_integral(P._tof_integral))))
+
+
+# ---------------------------------------------------------------------------
+# Snell invariant and directions
+# ---------------------------------------------------------------------------
+
+@harness(clause="snell")
+def snell_invariant_along_the_ray():
+    path, ice, n0, k, a, lo, p0, p1, theta0 = _path(True)
+    z = real("z")
+    assume(And(lo <= z, z <= 0))
+    beta = path.beta
+    nz = index(n0, k, a, z)
+    assume(And(beta <= nz, beta >= 0))      # the ray reaches depth z
+    prove("n(z)sin(theta(z))=beta", eq(nz * sin(path.theta(z)), beta))
+    prove("theta-in-first-quadrant", And(path.theta(z) >= 0, path.theta(z) <= pi / 2))
+
+
+def _directions(direct, nonhorizontal=False):
+    path, ice, n0, k, a, lo, p0, p1, theta0 = _path(direct)
+    if nonhorizontal:
+        # a direct ray launched exactly horizontally (theta0 == pi/2) is the degenerate case in which
+        # np.sign(cos(theta0)) == 0; excluded here and listed as not covered (measure-zero input)
+        assume(Not(eq(cos(theta0), 0)))
+    beta = path.beta
+    n_src = index(n0, k, a, p0[2])
+    n_rcv = index(n0, k, a, p1[2])
+    assume(beta <= n_rcv)                   # the ray reaches the receiver depth
+    e = path.emitted_direction
+    r = path.received_direction
+    phi = path.phi
+    prove("emitted-unit", eq(e[0] * e[0] + e[1] * e[1] + e[2] * e[2], 1))
+    prove("received-unit", eq(r[0] * r[0] + r[1] * r[1] + r[2] * r[2], 1))
+    # horizontal parts point along the azimuth phi of the endpoint separation with magnitude sin(theta)
+    prove("emitted-horizontal", And(eq(e[0], sin(theta0) * cos(phi)), eq(e[1], sin(theta0) * sin(phi))))
+    prove("snell-at-launch", eq(n_src * n_src * (e[0] * e[0] + e[1] * e[1]), beta * beta))
+    prove("snell-at-reception", eq(n_rcv * n_rcv * (r[0] * r[0] + r[1] * r[1]), beta * beta))
+    prove("received-azimuth", eq(r[0] * sin(phi), r[1] * cos(phi)))
+    prove("emitted-vertical", eq(e[2], cos(theta0)))
+    return path, theta0, e, r
+
+
+@harness(clause="snell")
+def directions_direct():
+    path, theta0, e, r = _directions(True, nonhorizontal=True)
+    # a direct ray keeps its vertical sense: it never turns over
+    prove("direct-keeps-vertical-sense", implies(e[2] > 0, r[2] >= 0))
+    prove("direct-keeps-vertical-sense-down", implies(e[2] < 0, r[2] <= 0))
+
+
+@harness(clause="snell")
+def directions_indirect():
+    path, theta0, e, r = _directions(False)
+    # the second solution arrives going downward (after turning over or reflecting)
+    prove("indirect-arrives-downward", r[2] <= 0)
+
+
+# ---------------------------------------------------------------------------
+# numeric tracer: trapezoid sums of the right integrand between the right end points
+# (convergence of the trapezoid rule to the integral is not decided here)
+# ---------------------------------------------------------------------------
+
+BP = "pyrex.ray_tracing.BasicRayTracePath"
+
+
+def _basic_path(direct):
+    ice, n0, k, a, lo = exp_ice()
+    p0 = vec("from")
+    p1 = vec("to")
+    theta0 = real("theta0")
+    dz = real("dz")
+    assume(And(lo <= p0[2], p0[2] <= 0, lo <= p1[2], p1[2] <= 0, theta0 >= 0, theta0 <= pi, dz > 0))
+    tracer = new("pyrex.ray_tracing.BasicRayTracer", p0, p1, ice_model=ice, dz=dz)
+    path = new(BP, tracer, theta0, direct)
+    return path, ice, n0, k, a, lo, p0, p1, theta0, dz
+
+
+G_any = ufunc("G_any")
+
+
+@harness(clause="numeric-trapezoid")
+def basic_direct_integral_grid():
+    path, ice, n0, k, a, lo, p0, p1, theta0, dz = _basic_path(True)
+    calls = []
+
+    def spy(y, x=None, dx=1, axis=-1):
+        calls.append((y, x, dx))
+        return real("trapz_value_%d" % len(calls))
+    use_lib_stub(["np.trapz", "np.trapezoid"], spy)
+    r = path.z_integral(G_any)
+    prove("one-trapezoid-sum", len(calls) == 1)
+    ys, x, dx = calls[0]
+    n = len(ys) - 1
+    prove("grid-has-at-least-one-point", n >= 0)
+    assume(n >= 1)
+    i = fresh_index("i", n + 1)
+    step = (p1[2] - p0[2]) / n
+    prove("sample-i-is-integrand-at-z0+i*step", eq(ys[i], G_any(p0[2] + i * step)))
+    prove("first-sample-at-source-depth", eq(ys[0], G_any(p0[2])))
+    prove("last-sample-at-receiver-depth", eq(ys[n], G_any(p0[2] + n * step)))
+    prove("spacing-is-|step|", eq(dx, absval(step)))
+    prove("step-no-larger-than-dz", absval(step) >= dz)
+    prove("result-is-the-sum", eq(r, real("trapz_value_1")))
+
+
+@harness(clause="numeric-trapezoid")
+def basic_path_length_and_tof_integrands():
+    """the integrands handed to z_integral are ds/dz = 1/cos(theta) and n/(c cos(theta)) with
+    n sin(theta) = beta (z_integral itself: basic_direct_integral_grid)"""
+    path, ice, n0, k, a, lo, p0, p1, theta0, dz = _basic_path(True)
+    captured = []
+
+    def z_integral_stub(self, integrand):
+        captured.append(integrand)
+        return real("integral_value_%d" % len(captured))
+    use_stub("pyrex.ray_tracing.BasicRayTracePath.z_integral", z_integral_stub)
+    pl = path.path_length
+    tf = path.tof
+    prove("path_length-is-the-integral", eq(pl, real("integral_value_1")))
+    prove("tof-is-the-integral", eq(tf, real("integral_value_2")))
+    z = real("z")
+    nz = index(n0, k, a, z)
+    beta = path.beta
+    assume(And(z <= 0, z >= lo, beta >= 0, beta < nz))
+    prove("path-length-integrand", eq(captured[0](z), nz / sqrt(nz * nz - beta * beta)))
+    prove("tof-integrand", eq(captured[1](z), nz * nz / (C * sqrt(nz * nz - beta * beta))))
+
+
+@harness(clause="numeric-trapezoid")
+def basic_tracer_direct_r_integrand():
+    """BasicRayTracer._direct_r is the trapezoid sum of tan(theta(z)) on a grid from the lower to
+    the higher endpoint, minus the target distance"""
+    ice, n0, k, a, lo = exp_ice()
+    p0 = vec("from")
+    p1 = vec("to")
+    dz = real("dz")
+    ang = real("angle")
+    target = real("target")
+    assume(And(lo <= p0[2], p0[2] <= 0, lo <= p1[2], p1[2] <= 0, dz > 0, ang >= 0, ang <= pi / 2))
+    tracer = new("pyrex.ray_tracing.BasicRayTracer", p0, p1, ice_model=ice, dz=dz)
+    calls = []
+    grids = []
+
+    def spy(y, x=None, dx=1, axis=-1):
+        calls.append((y, x, dx))
+        return real("trapz_value_%d" % len(calls))
+
+    def grid(start, stop, num=50, endpoint=True, retstep=False):
+        grids.append((start, stop, num, endpoint))
+        arr = symarr("zgrid", num)
+        return (arr, real("zstep")) if retstep else arr
+    use_lib_stub(["np.trapz", "np.trapezoid"], spy)
+    use_lib_stub("np.linspace", grid)
+    r = tracer._direct_r(ang, target)
+    zlo = ite(p0[2] <= p1[2], p0[2], p1[2])
+    zhi = ite(p0[2] <= p1[2], p1[2], p0[2])
+    prove("result", eq(r, real("trapz_value_1") - target))
+    prove("grid-from-lower-to-higher-endpoint", And(eq(grids[0][0], zlo), eq(grids[0][1], zhi), grids[0][3]))
+    prove("grid-size", grids[0][2] >= 1)
+    ys, x, dx = calls[0]
+    prove("spacing-is-grid-step", eq(dx, real("zstep")))
+    prove("one-sample-per-grid-point", len(ys) == grids[0][2])
+    i = fresh_index("i", len(ys))
+    z = symarr("zgrid", grids[0][2])[i]
+    nz = index(n0, k, a, z)
+    beta = index(n0, k, a, zlo) * sin(ang)
+    assume(And(lo <= z, z <= 0, beta < nz))
+    prove("integrand-is-tan(theta)", eq(ys[i], beta / sqrt(nz * nz - beta * beta)))
+
+
+# ---------------------------------------------------------------------------
+# tracer: launch-angle conversion, and "the ray arrives at the receiver" (on top of A6: brentq)
+# ---------------------------------------------------------------------------
+
+ST = "pyrex.ray_tracing.SpecializedRayTracer"
+
+
+def _tracer():
+    ice, n0, k, a, lo = exp_ice()
+    p0 = vec("from")
+    p1 = vec("to")
+    assume(And(lo <= p0[2], p0[2] <= 0, lo <= p1[2], p1[2] <= 0))
+    tracer = new(ST, p0, p1, ice_model=ice, dz=1)
+    return tracer, ice, n0, k, a, lo, p0, p1
+
+
+@harness(clause="tracer-geometry")
+def tracer_traces_from_lower_to_higher_endpoint():
+    tracer, ice, n0, k, a, lo, p0, p1 = _tracer()
+    prove("z0-is-lower", eq(tracer.z0, ite(p0[2] <= p1[2], p0[2], p1[2])))
+    prove("z1-is-higher", eq(tracer.z1, ite(p0[2] <= p1[2], p1[2], p0[2])))
+    prove("n0-is-index-at-lower", eq(tracer.n0, index(n0, k, a, tracer.z0)))
+    d0 = p1[0] - p0[0]
+    d1 = p1[1] - p0[1]
+    prove("rho", And(tracer.rho >= 0, eq(tracer.rho * tracer.rho, d0 * d0 + d1 * d1)))
+    prove("max-angle-is-critical-angle", eq(sin(tracer.max_angle) * tracer.n0, index(n0, k, a, tracer.z1)))
+
+
+R_any = ufunc("R_any")
+
+
+def launch_pre(tracer, min_angle, max_angle):
+    return And(min_angle >= 0, max_angle <= tracer.max_angle, min_angle <= max_angle)
+
+
+def launch_post(tracer, n_src, result, root, min_angle, max_angle):
+    """contract of BasicRayTracer._get_launch_angle (given A6)"""
+    return And(root >= min_angle, root <= max_angle,
+               eq(n_src * sin(result), tracer.n0 * sin(root)),
+               result >= 0, result <= pi / 2)
+
+
+@harness(clause="launch-angle", label="A")
+def get_launch_angle_contract():
+    """_get_launch_angle, for ANY distance function r: returns theta in [0, pi/2] with
+    n(source) sin(theta) = n(lower endpoint) sin(root), root in [min_angle, max_angle] a root of
+    r(angle, rho) (A6); otherwise it raises (ValueError from the search, TypeError after a
+    non-converged search) - it never returns None"""
+    tracer, ice, n0, k, a, lo, p0, p1 = _tracer()
+    lo_a = real("min_angle")
+    hi_a = real("max_angle")
+    assume(launch_pre(tracer, lo_a, hi_a))
+    outcome = "returns"
+    try:
+        theta = tracer._get_launch_angle(R_any, min_angle=lo_a, max_angle=hi_a)
+    except ValueError:
+        outcome = "ValueError"
+    except TypeError:
+        outcome = "TypeError"
+    if outcome == "returns":
+        root = real("brentq_root")
+        prove("root-is-root-of-r-minus-rho", eq(R_any(root, tracer.rho), 0))
+        n_src = index(n0, k, a, p0[2])
+        prove("postcondition", launch_post(tracer, n_src, theta, root, lo_a, hi_a))
+        prove("never-None", theta is not None)
+    else:
+        cover("raises")
+
+
+@harness(clause="ray-arrives", label="A")
+def direct_r_is_the_radial_distance_integral():
+    """SpecializedRayTracer._direct_r(angle, rho) = (integral of tan(theta) dz from the lower to the
+    higher endpoint, pieced at z_uniform) - rho; so a root of it is a ray that arrives (A6)"""
+    tracer, ice, n0, k, a, lo, p0, p1 = _tracer()
+    ang = real("angle")
+    rho = real("rho_arg")
+    P = resolve(SP)
+    beta = sin(ang) * tracer.n0
+    want = P._z_int_uniform_correction(tracer.z0, tracer.z1, tracer.z_uniform, beta, ice, P._distance_integral)
+    prove("direct", eq(tracer._direct_r(ang, rho), want - rho))
+    zt = ice.depth_with_index(tracer.n0 * sin(ang))
+    leg1 = P._z_int_uniform_correction(tracer.z0, zt, tracer.z_uniform, beta, ice, P._distance_integral)
+    leg2 = P._z_int_uniform_correction(tracer.z1, zt, tracer.z_uniform, beta, ice, P._distance_integral)
+    tracer._lazy_direct_r_max = real("direct_r_max")
+    assume(ang <= tracer.max_angle - 0.000001)      # outside the documented 1e-6 rad link range
+    prove("indirect-two-legs-to-turning-point", eq(tracer._indirect_r(ang, rho), leg1 + leg2 - rho))
+
+
+def launch_stub(self, r_function, min_angle=0, max_angle=None):
+    """assumed at call sites; proved by get_launch_angle_contract"""
+    theta = real("launch_theta")
+    root = real("launch_root")
+    n_src = self.ice.index(self.from_point[2])
+    assume(And(root >= min_angle, eq(n_src * sin(theta), self.n0 * sin(root)), theta >= 0, theta <= pi / 2))
+    return theta
+
+
+@harness(clause="launch-angle", label="A")
+def direct_angle_flips_when_source_is_higher():
+    tracer, ice, n0, k, a, lo, p0, p1 = _tracer()
+    tracer._lazy_expected_solutions = [True, False, True]
+    use_stub("pyrex.ray_tracing.BasicRayTracer._get_launch_angle", launch_stub)
+    ang = tracer.direct_angle
+    theta = real("launch_theta")
+    prove("upward-when-source-not-higher", implies(p0[2] <= p1[2], eq(ang, theta)))
+    prove("mirrored-when-source-higher", implies(p0[2] > p1[2], eq(ang, pi - theta)))
+    n_src = index(n0, k, a, p0[2])
+    prove("snell-invariant-kept", eq(n_src * sin(ang), tracer.n0 * sin(real("launch_root"))))
+    tracer2, ice2, n02, k2, a2, lo2, q0, q1 = tracer, ice, n0, k, a, lo, p0, p1
+    tracer._lazy_expected_solutions = [False, True, True]
+    del tracer._lazy_direct_angle
+    prove("no-direct-angle-without-flag", tracer.direct_angle is None)
+
+
+@harness(clause="solution-count")
+def solutions_follow_expected_flags():
+    """0 or 2 solutions: [direct, reflected/refracted] or [two refracted]; exists iff non-empty"""
+    tracer, ice, n0, k, a, lo, p0, p1 = _tracer()
+    rmax_d = real("direct_r_max")
+    rmax_i = real("indirect_r_max")
+    tracer._lazy_direct_r_max = rmax_d
+    tracer._lazy_indirect_r_max = rmax_i
+    flags = tracer.expected_solutions
+    n_true = ite(flags[0], 1, 0) + ite(flags[1], 1, 0) + ite(flags[2], 1, 0)
+    prove("zero-or-two", Or(n_true == 0, n_true == 2))
+    prove("exists-iff-some-flag", iff(tracer.exists, n_true > 0))
+    prove("direct-flag", iff(flags[0], tracer.rho < rmax_d))
+    prove("none-beyond-both-ranges", implies(And(tracer.rho >= rmax_d, tracer.rho >= rmax_i), n_true == 0))
+    # the solution list keeps exactly the flagged entries
+    tracer._lazy_direct_angle = ite(flags[0], real("a_direct"), None) if False else (real("a_direct") if flags[0] else None)
+    tracer._lazy_indirect_angle_1 = real("a_ind1") if flags[1] else None
+    tracer._lazy_indirect_angle_2 = real("a_ind2") if flags[2] else None
+    sols = tracer.solutions
+    prove("len(solutions)-is-number-of-flags", len(sols) == n_true)
+    prove("exists-iff-solutions-nonempty", iff(tracer.exists, len(sols) > 0))
+    if len(sols) == 2:
+        prove("first-is-direct-iff-direct-flag", iff(sols[0].direct, flags[0]))
+        prove("second-is-never-direct", Not(sols[1].direct))
